@@ -702,3 +702,36 @@ Proof.
   intros Hnd Hw Hall H0 Hc Hp Hns Hcl. destruct (sat_cache_ok W0 order Hall) as (Hwf & Hcoh & Hd & Hlv).
   by apply pure_tx_conserves_supply.
 Qed.
+
+(** * the flush: after a successful commit the bank agrees with the cache on every dirty, live account
+    (so a precompile that then changes the bank balance of a cached account must mirror exactly that change) *)
+Theorem commit_syncs_dirty : forall order W D W' D',
+  NoDup order -> commit_list W D order = (W', D', true) ->
+  forall a o, a ∈ order -> is_Some (dirties D !! a) -> objs D !! a = Some o -> osui o = false ->
+    zg (bank W') a = obal o.
+Proof.
+  induction order as [|x r IH]; intros W D W' D' Hnd H a o Hin Hda Hoa Hal; [by apply elem_of_nil in Hin|].
+  cbn [commit_list] in H. apply NoDup_cons in Hnd as [Hx Hnd].
+  destruct (decide (is_Some (dirties D !! x))) as [Hdx|Hdx].
+  - rewrite bool_decide_eq_true_2 in H by done.
+    destruct (commit_one W D x) as [[W1 D1] ok] eqn:Hc. destruct ok; [|inversion H].
+    destruct (commit_one_frame _ _ _ _ _ _ Hc) as (Hd & Ho & Hsu & Hb). specialize (Hb eq_refl).
+    apply elem_of_cons in Hin as [->|Hin].
+    + (* x itself: synced now, untouched by the rest *)
+      destruct (commit_one_exact _ _ _ _ _ _ Hoa Hal Hc) as (Hbx & _ & _).
+      assert (Hrest : forall l Wa Da Wb Db, x ∉ l -> commit_list Wa Da l = (Wb, Db, true) -> zg (bank Wb) x = zg (bank Wa) x).
+      { clear. induction l as [|y l IHl]; intros Wa Da Wb Db Hnin Hcl; cbn [commit_list] in Hcl; [by inversion Hcl|].
+        apply not_elem_of_cons in Hnin as [Hne Hnin].
+        destruct (bool_decide (is_Some (dirties Da !! y))); [|by eapply IHl].
+        destruct (commit_one Wa Da y) as [[W2 D2] ok2] eqn:Hc2. destruct ok2; [|inversion Hcl].
+        destruct (commit_one_frame _ _ _ _ _ _ Hc2) as (_ & _ & _ & Hb2). destruct (Hb2 eq_refl x Hne) as [Hbx _].
+        rewrite (IHl _ _ _ _ Hnin Hcl). exact Hbx. }
+      rewrite (Hrest r W1 D1 W' D' Hx H). exact Hbx.
+    + assert (Hne : a <> x) by (intros ->; by apply Hx).
+      specialize (Ho a). specialize (Hsu a). rewrite Hoa in Ho, Hsu.
+      destruct (objs D1 !! a) as [o1|] eqn:E1; cbn in Ho, Hsu; [|congruence].
+      assert (Hob : obal o1 = obal o) by congruence. assert (Hos : osui o1 = osui o) by congruence. rewrite <- Hob.
+      apply (IH W1 D1 W' D' Hnd H a o1 Hin); [by rewrite Hd|done|congruence].
+  - rewrite bool_decide_eq_false_2 in H by done.
+    apply elem_of_cons in Hin as [->|Hin]; [done|]. by apply (IH W D W' D' Hnd H a o Hin).
+Qed.
